@@ -41,6 +41,7 @@ func checkC17(c *Ctx) {
 	c.Rule("R4", "reader bounds: 3+Len <= bytes read and <= buffer size")
 	c.Rule("R5", "child-side order: shutdown parent admin -> start admin -> drain parent listeners -> terminate parent")
 	c.Rule("R6", "drain reaches only StopListen; Drain acts on an unbound listener too")
+	c.Rule("R7", "a departed child is recognised: concrete-type tests on the frame reader's error can succeed (the socket error is passed through unchanged)")
 
 	hc := p.Func(hrPkg, "(*Restarter).handleChild")
 	send := p.Func(hrPkg, "sendMessage")
@@ -334,7 +335,7 @@ func checkC17(c *Ctx) {
 		var payloadLow int64 = -1
 		eachInstr(send, func(_ *ssa.BasicBlock, _ int, in ssa.Instruction) {
 			if st, ok := in.(*ssa.Store); ok {
-				if ia, ok := st.Addr.(*ssa.IndexAddr); ok {
+				if ia, ok := st.Addr.(*ssa.IndexAddr); ok && isByteSliceVal(ia.X) {
 					if k, isC := constInt(ia.Index); isC {
 						wr[k] = st.Val
 						wbuf = ia.X
@@ -503,7 +504,7 @@ func checkC17(c *Ctx) {
 		// header guard n >= 3 before reading bytes 0..2
 		eachInstr(read, func(_ *ssa.BasicBlock, _ int, in ssa.Instruction) {
 			ia, ok := in.(*ssa.IndexAddr)
-			if !ok {
+			if !ok || !isByteSliceVal(ia.X) {
 				return
 			}
 			k, isC := constInt(ia.Index)
@@ -589,6 +590,9 @@ func checkC17(c *Ctx) {
 	}
 	checkDrainLatch(c, "R6")
 	c.Expect("R6", 2)
+	checkChildDeparture(c, "R7")
+	c.Rule("R8", "every requested step resolves to a declared method of the instance (not to a promotion wrapper that re-enters the same interface call)")
+	checkStepsHaveActions(c, "R8")
 }
 
 // checkDrainLatch (C17.R6, C09.R4): the close of the drain latch in listener.Drain is not control-dependent on the
@@ -624,5 +628,199 @@ func checkDrainLatch(c *Ctx, rule string) {
 			okAlways = escapesWithout(entryPos(dr), func(x ssa.Instruction) bool { return x == onceDo }) == nil
 		}
 		c.Check(okAlways, rule, "Drain marks the listener drained on every path", dr.Pos(), "the drain latch is closed whether or not the port is bound", "Drain returns without closing the drain latch when the listener is not bound yet: the bind-retry loop keeps going, binds later, and the 'drained' old process accepts new connections")
+	}
+}
+
+// errorSources classifies what a function can return in error result #idx: concrete types it constructs, and whether it
+// passes an error of an external (non-module) call through unchanged ("foreign": may be any type, e.g. *net.OpError).
+func (p *Prog) errorSources(fn *ssa.Function, idx, depth int) (concrete map[string]bool, foreign bool) {
+	concrete = map[string]bool{}
+	seen := map[ssa.Value]bool{}
+	var walk func(v ssa.Value, d int)
+	walk = func(v ssa.Value, d int) {
+		if seen[v] {
+			return
+		}
+		seen[v] = true
+		switch x := v.(type) {
+		case *ssa.Const:
+		case *ssa.MakeInterface:
+			concrete[types.TypeString(x.X.Type(), nil)] = true
+		case *ssa.ChangeInterface:
+			walk(x.X, d)
+		case *ssa.Phi:
+			for _, e := range x.Edges {
+				walk(e, d)
+			}
+		case *ssa.Extract:
+			if call, ok := x.Tuple.(*ssa.Call); ok {
+				g := calleeFn(call.Common())
+				if g != nil && isModFn(g) && g.Blocks != nil && d > 0 {
+					c2, f2 := p.errorSources(g, x.Index, d-1)
+					for k := range c2 {
+						concrete[k] = true
+					}
+					foreign = foreign || f2
+					return
+				}
+			}
+			foreign = true
+		case *ssa.Call:
+			g := calleeFn(x.Common())
+			switch {
+			case g != nil && isModFn(g) && g.Blocks != nil && d > 0:
+				c2, f2 := p.errorSources(g, 0, d-1)
+				for k := range c2 {
+					concrete[k] = true
+				}
+				foreign = foreign || f2
+			case g != nil && g.Pkg != nil && g.Pkg.Pkg.Path() == "fmt" && g.Name() == "Errorf":
+				concrete["*fmt.wrapError"] = true
+			case g != nil && g.Pkg != nil && g.Pkg.Pkg.Path() == "errors" && g.Name() == "New":
+				concrete["*errors.errorString"] = true
+			default:
+				foreign = true
+			}
+		default:
+			foreign = true
+		}
+	}
+	eachInstr(fn, func(_ *ssa.BasicBlock, _ int, in ssa.Instruction) {
+		if r, ok := in.(*ssa.Return); ok && idx < len(r.Results) {
+			walk(r.Results[idx], depth)
+		}
+	})
+	return
+}
+
+// checkChildDeparture (C17.R7): the old process recognises a departed child by the concrete type of the error that the
+// frame reader returns (`err.(*net.OpError)` with Err == io.EOF) and only then leaves the child's loop. That is a
+// contract between two functions: the reader must hand the socket error through unchanged. If it constructs its own
+// error values only (wrapping), the assertion can never succeed, the loop spins on the dead connection and - because
+// the loop runs inline in the accept loop - no later child is ever served.
+func checkChildDeparture(c *Ctx, rule string) {
+	p := c.P
+	read := p.Func("cmd/samaritan/hotrestart", "readMessage")
+	if read == nil {
+		c.Unresolved(rule, "hotrestart.readMessage")
+		return
+	}
+	n := 0
+	for _, ed := range p.callersOf(read) {
+		fn := ed.Caller.Func
+		if p.isTestFn(fn) {
+			continue
+		}
+		call, ok := ed.Site.(*ssa.Call)
+		if !ok {
+			continue
+		}
+		var errV ssa.Value
+		for _, r := range *call.Referrers() {
+			if ex, ok := r.(*ssa.Extract); ok && ex.Index == 1 {
+				errV = ex
+			}
+		}
+		if errV == nil {
+			continue
+		}
+		eachInstr(fn, func(_ *ssa.BasicBlock, _ int, in ssa.Instruction) {
+			ta, ok := in.(*ssa.TypeAssert)
+			if !ok || ta.X != errV {
+				return
+			}
+			n++
+			want := types.TypeString(ta.AssertedType, nil)
+			site := fmt.Sprintf("%s asserts the reader's error to %s", fnKey(fn), want)
+			conc, foreign := p.errorSources(read, 1, 2)
+			if _, isIface := ta.AssertedType.Underlying().(*types.Interface); isIface || foreign || conc[want] {
+				c.OK(rule, site, ta.Pos(), "the reader passes the socket error through unchanged, so the assertion can succeed")
+				return
+			}
+			var ks []string
+			for k := range conc {
+				ks = append(ks, k)
+			}
+			sort.Strings(ks)
+			c.Fail(rule, site, ta.Pos(), "the frame reader only returns errors it constructs itself ("+strings.Join(ks, ", ")+"): this assertion can never succeed, so a departed child (EOF) is treated as a bad frame, the loop spins on the dead connection and no later child is ever accepted")
+		})
+	}
+	if n == 0 {
+		c.Note("no concrete-type test on the frame reader's error")
+	}
+}
+
+// isByteSliceVal: v is a []byte (not a varargs array or another slice).
+func isByteSliceVal(v ssa.Value) bool {
+	sl, ok := v.Type().Underlying().(*types.Slice)
+	if !ok {
+		return false
+	}
+	b, ok := sl.Elem().Underlying().(*types.Basic)
+	return ok && b.Kind() == types.Uint8
+}
+
+// checkStepsHaveActions (C17.R8): every step the old process performs on request is an interface call on the embedded
+// Instance. The concrete instance embeds the Restarter, which embeds that interface - so a method the instance does
+// not declare itself is *promoted from the very interface value that holds the instance*: calling it re-enters the
+// same promotion wrapper for ever (fatal stack overflow, the old process dies on that request). Every callee of an
+// Instance call made by the restarter must therefore be a declared function, not a promotion wrapper that invokes
+// the same interface method again.
+func checkStepsHaveActions(c *Ctx, rule string) {
+	p := c.P
+	n := 0
+	seen := map[string]bool{}
+	for _, fn := range p.FuncsIn(hrPkg) {
+		if p.isTestFn(fn) {
+			continue
+		}
+		eachInstr(fn, func(_ *ssa.BasicBlock, _ int, in ssa.Instruction) {
+			ci, ok := in.(ssa.CallInstruction)
+			if !ok || !ci.Common().IsInvoke() {
+				return
+			}
+			it := ci.Common().Value.Type()
+			if !modType(it, hrPkg, "Instance") {
+				return
+			}
+			m := ci.Common().Method.Name()
+			if seen[m] {
+				return
+			}
+			seen[m] = true
+			n++
+			site := "step Instance." + m + " has a declared implementation"
+			bad := ""
+			for _, g := range p.callees(ci) {
+				// follow promotion wrappers
+				cur := g
+				for depth := 0; depth < 6 && cur != nil && cur.Synthetic != ""; depth++ {
+					var next *ssa.Function
+					loops := false
+					eachInstr(cur, func(_ *ssa.BasicBlock, _ int, x ssa.Instruction) {
+						c2, ok := x.(ssa.CallInstruction)
+						if !ok {
+							return
+						}
+						if c2.Common().IsInvoke() && c2.Common().Method.Name() == m && modType(c2.Common().Value.Type(), hrPkg, "Instance") {
+							loops = true
+							return
+						}
+						if h := calleeFn(c2.Common()); h != nil {
+							next = h
+						}
+					})
+					if loops {
+						bad = fnKey(g)
+						break
+					}
+					cur = next
+				}
+			}
+			c.Check(bad == "", rule, site, in.Pos(), "resolves to a declared method", "the only implementation is "+bad+", a wrapper that promotes the method from the embedded Restarter's Instance field - which holds this very instance: the call re-enters itself without end (fatal stack overflow), so the old process dies when it is asked for this step")
+		})
+	}
+	if n == 0 {
+		c.Unresolved(rule, "no call on hotrestart.Instance")
 	}
 }
